@@ -105,13 +105,18 @@ def sym_bool(name, default=False):
 
 
 def sym_choice(name, options, default=None):
-    """One of a small list of concrete options, chosen by the solver (forks)."""
+    """One of a small list of concrete options, chosen by the solver (binary splitting:
+    about log2(n) forks per path)."""
     i = sym_int(name, 0, len(options) - 1,
                 default=(options.index(default) if default is not None else 0))
-    for k in range(len(options) - 1):
-        if i == k:
-            return options[k]
-    return options[-1]
+    lo, hi = 0, len(options) - 1
+    while lo < hi:
+        mid = (lo + hi) // 2
+        if i <= mid:
+            hi = mid
+        else:
+            lo = mid + 1
+    return options[lo]
 
 
 def assume(cond):
